@@ -9,7 +9,7 @@ import numpy as np
 from mc import harness, explorer
 
 NAMES = ("x", "y")
-NM, NP = 3, 2
+NM, NP = 3, 3
 
 class World:
     def __init__(self):
@@ -19,6 +19,8 @@ class World:
         self.mods = [nn.Module() for _ in range(NM)]
         self.pars = [nn.Parameter(sg.Tensor(np.array([1.0, -2.0]), requires_grad=True)),
                      nn.Parameter(sg.Tensor(np.array([0.5, 1.5, -1.0]), requires_grad=True))]
+        # a third Parameter OBJECT that re-wraps P0 (Parameter(p) shares p's storage: tied weights) - still a distinct parameter
+        self.pars.append(nn.Parameter(self.pars[0]))
         # model: per module ordered registrations name -> (kind, index, first_time, last_time)
         self.reg = [collections.OrderedDict() for _ in range(NM)]
         self.clock = 0
@@ -284,7 +286,7 @@ def run(tier, seed):
     cov = {"states": res.states, "transitions": res.transitions, "traces_validated_against_impl": res.transitions + nseq,
            "samples": res.samples + seqs[-2:], "exhaustive": res.complete, "depth": res.max_depth, "level_sizes": res.level_sizes,
            "pruned_violating_transitions": res.pruned, "sequential_programs": nseq,
-           "rule": f"all histories up to depth {depth} over 3 Modules (m0>m1>m2 nesting only, so no cycles), 2 Parameters, attribute "
+           "rule": f"all histories up to depth {depth} over 3 Modules (m0>m1>m2 nesting only, so no cycles), 3 Parameters (one re-wrapping another's storage), attribute "
                    "names {x,y}: setattr(module|parameter|None), register_module/register_parameter, train/eval/freeze/unfreeze/"
                    "zero_grad on any node, one backward through all trainable parameters; after every event, for every module as "
                    "root: parameters() identity list (each reachable once; order = registration order, slot-keeping or latest-"
